@@ -50,7 +50,7 @@ func (w *c20Server) Run(ctx context.Context) error {
 var c20Mu sync.Mutex // http.DefaultTransport and the verifhook ServeHTTP seam are process-global
 
 func (c20) Run(e *Env) {
-	e.ProbeDecl("invocation", "invocation-without-data", "upstream-slow", "upstream-5xx-then-ok", "upstream-abandoned", "telemetry-other-records", "telemetry-init-runtime-done", "datapoint-during-init", "startup-failure", "shutdown")
+	e.ProbeDecl("invocation", "invocation-without-data", "upstream-slow", "upstream-5xx-then-ok", "upstream-abandoned", "telemetry-other-records", "telemetry-init-runtime-done", "datapoint-during-init", "startup-failure", "shutdown", "flush-split-into-several-requests")
 	c20Mu.Lock()
 	defer c20Mu.Unlock()
 	fab := NewFabric()
@@ -87,6 +87,12 @@ func (c20) Run(e *Env) {
 	v.Set("http-transport.compress", e.Bool())
 	v.Set("http-transport.max-request-elapsed-time", window)
 	v.Set("http-transport.flush-interval", time.Second)
+	// dynamic headers split one flush into several upstream requests (or none); the coordinator still
+	// has a single waiter per flush
+	dynHeaders := e.Chance(1, 2)
+	if dynHeaders {
+		v.Set("http-transport.dynamic-headers", []string{"service"})
+	}
 	pool := transport.NewTransportPool(logrus.StandardLogger(), v)
 	cl, _ := pool.Get("default")
 	cl.Client.Transport = fab
@@ -201,8 +207,22 @@ func (c20) Run(e *Env) {
 					parkedUp = append(parkedUp, p)
 				}
 			}
+			// requests that arrived within one step come from goroutines started in Go map order (the
+			// per-header split): canonicalise by content
+			var fresh []*HTTPReq
 			for ; reqSeen < fab.NReqs(); reqSeen++ {
-				r := fab.Req(reqSeen)
+				fresh = append(fresh, fab.Req(reqSeen))
+			}
+			sort.SliceStable(fresh, func(i, j int) bool {
+				if fresh[i].Host != fresh[j].Host {
+					return fresh[i].Host < fresh[j].Host
+				}
+				if fresh[i].Canon != fresh[j].Canon {
+					return fresh[i].Canon < fresh[j].Canon
+				}
+				return fresh[i].Attempt < fresh[j].Attempt
+			})
+			for _, r := range fresh {
 				if r.Host != "upstream" {
 					if r.Host == "lambda" && strings.HasSuffix(r.Path, "/event/next") {
 						e.Event("GET /event/next (invocations so far %d)", invocation)
@@ -267,7 +287,13 @@ func (c20) Run(e *Env) {
 		nDP++
 		d := &dp{member: fmt.Sprintf("dp%d", nDP), inv: invocation, doneAt: beforeDone}
 		dps = append(dps, d)
-		sock.Deliver(&Dgram{ID: nDP, Payload: []byte(fmt.Sprintf("lambda.set:%s|s", d.member)), Addr: ClientAddr(0)})
+		line := fmt.Sprintf("lambda.set:%s|s", d.member)
+		if dynHeaders {
+			if svc := []string{"", "a", "b", "c"}[e.Draw(4)]; svc != "" {
+				line += "|#service:" + svc
+			}
+		}
+		sock.Deliver(&Dgram{ID: nDP, Payload: []byte(line), Addr: ClientAddr(0)})
 		e.Settle()
 		e.Event("datapoint %s accepted in invocation %d", d.member, invocation)
 	}
@@ -353,6 +379,9 @@ func (c20) Run(e *Env) {
 			e.Check()
 			if len(parkedUp) == 0 {
 				return
+			}
+			if len(parkedUp) > 1 {
+				e.Probe("flush-split-into-several-requests")
 			}
 			p := parkedUp[e.Choose("upstream-req", len(parkedUp))]
 			r := p.Arg.(*HTTPReq)
